@@ -127,7 +127,8 @@ func VerifC14_Spec() {
 			req = append(req, link)
 			wants = append(wants, want{link, target})
 		default: // a path of the sandbox's own infrastructure, or beneath it
-			pool := []string{"/tmp", "/proc", "/sys", "/dev", "/app/sfw", "/gocache", "/proc/self", "/dev/null"}
+			// ... or an ancestor of the system locations the sandbox mounts itself
+			pool := []string{"/tmp", "/proc", "/sys", "/dev", "/app/sfw", "/gocache", "/proc/self", "/dev/null", "/usr", "/"}
 			k := vxPick(len(pool))
 			req = append(req, pool[k])
 			if k < 6 {
